@@ -19,7 +19,7 @@
    replayed label by label through Model.Forwarder.post_step (Props.C15_retry_discipline) and the
    counters compared with the sum of the replayed requests. *)
 From stdpp Require Import gmap.
-From GS Require Export Base.LTS Corr.MMLib Model.Consolidator Model.Forwarder.
+From GS Require Export Base.LTS Corr.MMLib Model.Wire Model.PbWire Model.Consolidator Model.Forwarder.
 Local Open Scope nat_scope.
 
 Inductive ev :=
@@ -56,12 +56,15 @@ Definition window_ok (evs : list ev) (b f : nat) : bool :=
 
 Definition count_nat (x : nat) (l : list nat) : nat := length (List.filter (Nat.eqb x) l).
 
-Record witem := WItem { wi_batch : nat; wi_gauge : bool; wi_item : item }.
+(* wi_kind: 1 counter (wi_pay = the bit the item sets in the counter's value), 2 timer (wi_pay = bits
+   of its value), 3 gauge (bits of its value), 4 set (wi_member = its member) *)
+Record witem := WItem { wi_batch : nat; wi_gauge : bool; wi_item : item; wi_kind : N; wi_pay : Z; wi_member : str }.
 
 Record body := Body {
   bd_items : list nat;                 (* ids of the items decoded from the body *)
   bd_enc : str;                        (* Content-Encoding the handler was configured to send *)
   bd_headers : list (str * str);       (* headers received (lower-case names), transport-generated ones removed *)
+  bd_raw : option str;                 (* the request body itself when it was sent with Content-Encoding: identity *)
   bd_stop_ub : Z                       (* for a body that was given up: upper bound (ns) on the time from the creation of
                                           its request (>= the last dispatch call of any of its items) to the handler's
                                           "giving up" log entry, i.e. on the elapsed time NextBackOff can have seen *)
@@ -70,7 +73,7 @@ Record body := Body {
 Inductive c15case :=
 | SplitCase (dps : list datapoint) (names : list str) (obs : list (str * list entry))
 | ConsCase (k : nat) (batches : nat) (evs : list ev) (emitted : list (nat * list nat)) (* maps in the emission, batches found *)
-| FwdCase (window : Z) (xheaders : list (str * str)) (dynraw : list str) (utf8 : list (str * bool))
+| FwdCase (window : Z) (cflag : bool) (ctype : str) (xheaders : list (str * str)) (dynraw : list str) (utf8 : list (str * bool))
           (items : list witem) (marked : bool) (nflush : nat) (evs : list ev) (bodies : list body)
           (ctr : counters) (notified : option nat).   (* NotifyFlush calls seen by the coordinator (manual flushes only) *)
 
@@ -81,7 +84,8 @@ Inductive why :=
 | WRetry (body : nat) (outs : list outcome) | WOverlap (body : nat) | WEarlyStop (body : nat) (window elapsed_ub : Z)
 | WItemCount (i n : nat) | WInvalidPresent (i : nat) | WNoFlush (body : nat)
 | WCounters (model : counters) (invalid_lo invalid_hi : nat)
-| WNotified (model : nat).
+| WNotified (model : nat)
+| WUtf8 (s : str) | WEncoding (body : nat) (model : str) | WDecode (body : nat) (model : option (list nat)).
 
 (* ---- SplitCase ---- *)
 Definition check_split (dps : list datapoint) (names : list str) (obs : list (str * list entry)) : bool :=
@@ -126,15 +130,32 @@ Definition body_flush_ok (items : list witem) (evs : list ev) (nflush : nat) (i 
                                  | None => true end) (bd_items bd))
           (seq 1 nflush).
 
+(* the items the Gallina protobuf decoder (PbWire.pb_unmarshal, Wire.from_pb) finds in a raw body *)
+Definition item_in (m : mmap) (w : witem) : bool :=
+  let key := (it_name (wi_item w), it_key (wi_item w)) in
+  match wi_kind w with
+  | 1%N => match MetricMap.counters m !! key with Some c => Z.testbit (c_val c) (wi_pay w) | None => false end
+  | 2%N => match timers m !! key with Some t => existsb (Z.eqb (wi_pay w)) (t_vals t) | None => false end
+  | 3%N => match gauges m !! key with Some g => (g_val g =? wi_pay w)%Z | None => false end
+  | _ => match sets m !! key with Some st => bool_decide (wi_member w ∈ s_vals st) | None => false end
+  end.
+Definition decoded_items (items : list witem) (raw : str) : option (list nat) :=
+  match pb_unmarshal raw with
+  | Some p => let m := from_pb 0 p in Some (it_id ∘ wi_item <$> List.filter (item_in m) items)
+  | None => None
+  end.
+
 Definition windows_meet (evs : list ev) (nflush : nat) (a b : nat) : bool :=
   existsb (λ f, window_ok evs a f && window_ok evs b f) (seq 1 nflush).
 
-Definition fwd_problems (window : Z) (xh : list (str * str)) (dynraw : list str) (utf8 : list (str * bool))
+Definition fwd_problems (window : Z) (cflag : bool) (ctype : str) (xh : list (str * str)) (dynraw : list str) (utf8 : list (str * bool))
     (items : list witem) (marked : bool) (nflush : nat) (evs : list ev) (bodies : list body) (ctr : counters)
     (notified : option nat) : list why :=
   let dyn := effective_dyn xh dynraw in
   let ok := item_ok (utf8_of utf8) in
   let ibodies := imap (λ i b, (i, b)) bodies in
+  (* Content-Encoding per Model.Wire (C14): what the configured compression makes constructPost send *)
+  let enc_model := match new_forwarder cflag ctype 1 with Some c => sender_header c | None => [] end in
   let present := concat (bd_items <$> bodies) in
   let bad := List.filter (λ w, negb (ok (wi_item w))) items in
   let per_body := flat_map (λ ib,
@@ -154,6 +175,12 @@ Definition fwd_problems (window : Z) (xh : list (str * str)) (dynraw : list str)
           | Some p => match p_phase p with PEnd => [] | _ => [WRetry i outs] end
           | None => [WRetry i outs] end)
       ++ (if overlap_free i evs false then [] else [WOverlap i])
+      ++ (if str_eqb (bd_enc bd) enc_model then [] else [WEncoding i enc_model])
+      ++ (match bd_raw bd with
+          | None => []
+          | Some raw => let d := decoded_items items raw in
+                        if option_eqb (list_eqb Nat.eqb) d (Some (bd_items bd)) then [] else [WDecode i d]
+          end)
       (* abandoned only when the retry window, measured from this request's own start, is exhausted *)
       ++ (match last outs Ok2xx with
           | Failed => if stop_allowed window (bd_stop_ub bd) then [] else [WEarlyStop i window (bd_stop_ub bd)]
@@ -178,7 +205,8 @@ Definition fwd_problems (window : Z) (xh : list (str * str)) (dynraw : list str)
                                          | Some p => ctr_add (p_ctr p) acc | None => acc end) ctr0 ibodies in
   let inv_lo := match bad with [] => 0 | _ => 1 end in
   let inv_hi := length bad in
-  per_body ++ per_item
+  flat_map (λ sb, if Bool.eqb (utf8_valid sb.1) sb.2 then [] else [WUtf8 sb.1]) utf8   (* Go's unicode/utf8 vs PbWire.utf8_valid *)
+  ++ per_body ++ per_item
   ++ (if (n_created ctr =? n_created model_ctr) && (n_sent ctr =? n_sent model_ctr)
          && (n_retried ctr =? n_retried model_ctr) && (n_dropped ctr =? n_dropped model_ctr)
          && (inv_lo <=? n_invalid ctr) && (n_invalid ctr <=? inv_hi)
@@ -200,8 +228,8 @@ Definition problems (c : c15case) : list why :=
       if check_split dps names obs then []
       else [WSplit ((λ kp, (kp.1, entries kp.2)) <$> split_by_tags names (receive_all empty_map dps))]
   | ConsCase k nb evs emitted => cons_problems k nb evs emitted
-  | FwdCase window xh dynraw utf8 items marked nflush evs bodies ctr notified =>
-      fwd_problems window xh dynraw utf8 items marked nflush evs bodies ctr notified
+  | FwdCase window cflag ctype xh dynraw utf8 items marked nflush evs bodies ctr notified =>
+      fwd_problems window cflag ctype xh dynraw utf8 items marked nflush evs bodies ctr notified
   end.
 
 Definition check_case (c : c15case) : bool := match problems c with [] => true | _ => false end.
